@@ -46,8 +46,10 @@ class Combination(object):
         specifiers.set_signature_forger(self, self.get_signature,
                                         emulate=False)
 
-    def __call__(self, arg, *args, **kwargs):
-        for function in self.functions:
+    def __call__(_sigtools__self, arg, *args, **kwargs):
+        # not named self: the combined functions may have a parameter of that
+        # name, which callers are entitled to pass by keyword
+        for function in _sigtools__self.functions:
             arg = function(arg, *args, **kwargs)
         return arg
 
